@@ -47,6 +47,7 @@ def expected : List (String × String × Bool × Bool × List String) := [
   ("ff", "Element.Set", true, true, []),
   ("ff", "Element.SetBigInt", true, true, []),
   ("ff", "Element.SetBytes", true, true, []),
+  ("ff", "Element.SetInterface", true, true, []),
   ("ff", "Element.SetOne", true, true, []),
   ("ff", "Element.SetString", true, true, []),
   ("ff", "Element.SetUint64", true, true, []),
@@ -63,6 +64,7 @@ def expected : List (String × String × Bool × Bool × List String) := [
   ("ffg", "Element.Set", true, true, []),
   ("ffg", "Element.SetBigInt", true, true, []),
   ("ffg", "Element.SetBytes", true, true, []),
+  ("ffg", "Element.SetInterface", true, true, []),
   ("ffg", "Element.SetOne", true, true, []),
   ("ffg", "Element.SetString", true, true, []),
   ("ffg", "Element.SetUint64", true, true, []),
